@@ -205,3 +205,49 @@ def read_after_buffered_write(inp):
 def readline_after_buffered_write(inp):
     """known finding: data written with buffering on is not flushed before a readline() that follows"""
     return _finding("r+", 8192, [("write", b"QQQ"), ("readline", 2000)])
+
+
+def server_handle_offsets(inp):
+    """the server side alone: a real SFTPHandle over a real temporary file, in plain and append mode; sequences of
+    read(offset, n) / write(offset, data) compared with the file's actual content"""
+    import tempfile
+    from paramiko.sftp_handle import SFTPHandle
+    bad = []
+    rng = random.Random(ival(inp, "seed", 1))
+    progs = [("a+", [("r", 0, 10), ("w", 0, b"abc"), ("r", 13, 5)]),
+             ("r+", [("r", 0, 10), ("w", 10, b"abc"), ("r", 13, 5), ("w", 0, b"Z"), ("r", 1, 3)]),
+             ("a+", [("w", 5, b"xy"), ("r", 0, 4), ("r", 4, 4), ("w", 0, b"q"), ("r", 8, 2)])]
+    for _ in range(20):
+        mode = rng.choice(["r+", "a+"])
+        progs.append((mode, [(("r", rng.randrange(0, 120), rng.randrange(0, 20)) if rng.random() < 0.6 else
+                              ("w", rng.randrange(0, 100), bytes([65 + rng.randrange(26)]) * rng.randrange(1, 6)))
+                             for _ in range(rng.randrange(2, 8))]))
+    d = tempfile.mkdtemp(prefix="c27h_")
+    try:
+        for mode, ops in progs:
+            p = os.path.join(d, "f")
+            model = bytearray(bytes(range(100)))
+            with open(p, "wb") as f:
+                f.write(bytes(model))
+            flags = os.O_RDWR | (os.O_APPEND if mode == "a+" else 0)
+            f = os.fdopen(os.open(p, flags), mode + "b")
+            h = SFTPHandle(flags)
+            h.readfile = h.writefile = f
+            for op in ops:
+                if op[0] == "r":
+                    got = h.read(op[1], op[2])
+                    want = bytes(model[op[1]:op[1] + op[2]])
+                    if got != want:
+                        bad.append({"mode": mode, "ops": repr(ops)[:200], "at": repr(op), "got": repr(got)[:40], "want": repr(want)[:40]})
+                        break
+                else:
+                    h.write(op[1], op[2])
+                    if mode == "a+":
+                        model += op[2]
+                    else:
+                        model[op[1]:op[1] + len(op[2])] = op[2]
+            f.close()
+    finally:
+        import shutil
+        shutil.rmtree(d, ignore_errors=True)
+    return {"violates": bool(bad), "evaluations": len(progs), "detail": bad[:3]}
